@@ -351,7 +351,7 @@ fn main() {
             let namespaces = rng.range(1, 3) as usize;
             let probe = Case { namespaces, script: vec![], entry: entry.clone() };
             let Some(r) = reference(&probe) else { continue };
-            let first_len = lines_of(&r).first().map(|l| l.len()).unwrap_or(0);
+            let first_len = lines_of(&r).iter().map(|l| l.len()).max().unwrap_or(0); // deterministic (line order is not)
             for k in 1..=first_len {
                 let tail = match k % 4 {
                     0 => vec![],
